@@ -566,4 +566,214 @@ theorem entries_spec (H : Bytes → Bytes) (t : Node) (pre : List Nib) :
     simp only [reprOf]
 
 
+
+/-! ### What `decode` guarantees about its result; idempotent re-encoding -/
+
+/-- what `decode` guarantees about its result: enough for the round trip (`ReprWF` without the hex-digit requirement) -/
+def BodyOK : Body → Prop
+  | .value _ => True
+  | .leaf p q v => sep ∉ p ∧ sep ∉ q ∧ optNonEmpty v
+  | .full ch v => ch.length = 16 ∧ (∀ k, some k ∈ ch → k.length = 32) ∧ optNonEmpty v
+  | .ext p _ => sep ∉ p
+
+def ReprOK (r : Repr) : Prop := r.version < 2 ^ 64 ∧ r.origin < 2 ^ 64 ∧ BodyOK r.body
+
+theorem reprOK_of_wf (r : Repr) (h : ReprWF r) : ReprOK r := by
+  obtain ⟨hv, ho, hb⟩ := h
+  refine ⟨hv, ho, ?_⟩
+  cases hr : r.body with
+  | value v => simp [BodyOK]
+  | leaf p q v => rw [hr] at hb; exact ⟨sep_not_hex p hb.1, sep_not_hex q hb.2.1, hb.2.2⟩
+  | full ch v => rw [hr] at hb; exact hb
+  | ext p k => rw [hr] at hb; exact sep_not_hex p hb
+
+theorem decode_encode_ok (r : Repr) (h : ReprOK r) : decode (encode r) = .ok r := by
+  obtain ⟨ver, org, body⟩ := r
+  obtain ⟨hv, ho, hb⟩ := h
+  simp only at hv ho hb
+  unfold decode encode
+  simp only [typeByte_and, List.append_assoc, readTracker_le64 ver org hv ho]
+  cases body with
+  | value v => simp [typeByte, encBody]
+  | leaf p q v =>
+    obtain ⟨hp, hq, hvv⟩ := hb
+    have := decodeLeaf_enc p q v hp hq hvv
+    have this' : decodeLeaf (p ++ sep :: (q ++ sep :: optBytes v)) = .ok (.leaf p q v) := by simpa using this
+    simp [typeByte, encBody, this']
+  | full ch v =>
+    obtain ⟨hl, hk, hvv⟩ := hb
+    simp [typeByte, encBody, decodeFull_enc ch v hl hk hvv]
+  | ext p k =>
+    have := decodeExt_enc p k hb
+    have this' : decodeExt (p ++ sep :: k) = .ok (.ext p k) := by simpa using this
+    simp [typeByte, encBody, this']
+
+theorem not_mem_take_idxOf (l : Bytes) (a : UInt8) : a ∉ l.take (l.idxOf a) := by
+  induction l with
+  | nil => simp
+  | cons x r ih =>
+    by_cases hx : x = a
+    · subst hx; simp
+    · have : (x == a) = false := by simpa using hx
+      simp only [List.idxOf_cons, this, cond_false, List.take_succ_cons, List.mem_cons, not_or]
+      exact ⟨fun h => hx h.symm, ih⟩
+
+theorem sep_not_mem_take_index (b : Bytes) (h : 0 ≤ indexByte b sep) : sep ∉ b.take (indexByte b sep).toNat := by
+  unfold indexByte at h ⊢
+  by_cases hm : sep ∈ b
+  · simp only [hm, if_true, Int.toNat_natCast]; exact not_mem_take_idxOf b sep
+  · simp [hm] at h
+
+theorem fromLE_lt (b : Bytes) : fromLE b < 256 ^ b.length := by
+  induction b with
+  | nil => simp [fromLE]
+  | cons x r ih =>
+    have := x.toNat_lt
+    simp only [fromLE, List.length_cons, Nat.pow_succ]
+    omega
+
+theorem readTracker_lt (b : Bytes) : (readTracker b).1 < 2 ^ 64 ∧ (readTracker b).2.1 < 2 ^ 64 := by
+  have h8 : ∀ c : Bytes, fromLE (c.take 8) < 2 ^ 64 := by
+    intro c
+    have := fromLE_lt (c.take 8)
+    have hl : (c.take 8).length ≤ 8 := by simp [List.length_take]; omega
+    calc fromLE (c.take 8) < 256 ^ (c.take 8).length := this
+      _ ≤ 256 ^ 8 := Nat.pow_le_pow_right (by decide) hl
+      _ = 2 ^ 64 := by decide
+  unfold readTracker
+  by_cases h1 : b.length < 8
+  · simp [h1]
+  · simp only [h1, if_false]
+    by_cases h2 : (b.drop 8).length < 8
+    · simp only [h2, if_true]; exact ⟨h8 _, by simp⟩
+    · simp only [h2, if_false]; exact ⟨h8 _, h8 _⟩
+
+theorem hexDecodeInto_length (cap : Nat) (src : Bytes) (i : Nat) (acc out : Bytes) (hacc : acc.length = i) (hi : i ≤ cap)
+    (h : hexDecodeInto cap src i acc = .ok out) : out.length = cap := by
+  fun_induction hexDecodeInto cap src i acc with
+  | case1 p q rest i acc a b ha hb hlt ih => exact ih (by simp [hacc]) (by omega) h
+  | case2 => simp at h
+  | case3 => simp at h
+  | case4 => simp at h
+  | case5 i acc => simp at h; rw [← h]; simp [hacc]; omega
+
+
+theorem optNonEmpty_ofLength (b : Bytes) : optNonEmpty (if b.length = 0 then none else some b) := by
+  by_cases h : b.length = 0
+  · simp [h, optNonEmpty]
+  · simp only [h, if_false, optNonEmpty]; intro e; simp [e] at h
+
+theorem decodeLeaf_bodyOK (buf : Bytes) (b : Body) (h : decodeLeaf buf = .ok b) : BodyOK b := by
+  unfold decodeLeaf at h
+  rcases indexByte_neg_or buf sep with h1 | ⟨h0, h1⟩
+  · simp [h1] at h
+  · have hn : ¬ indexByte buf sep < 0 := by omega
+    simp only [hn, if_false] at h
+    rw [sliceTo_ok _ _ h0 (by omega), sliceFrom_ok _ _ (by omega) (by omega)] at h
+    simp only at h
+    generalize List.drop (indexByte buf sep + 1).toNat buf = buf2 at h
+    rcases indexByte_neg_or buf2 sep with h2 | ⟨h20, h21⟩
+    · simp [h2] at h
+    · have hn2 : ¬ indexByte buf2 sep < 0 := by omega
+      simp only [hn2, if_false] at h
+      rw [sliceTo_ok _ _ h20 (by omega), sliceFrom_ok _ _ (by omega) (by omega)] at h
+      simp only [DRes.ok.injEq] at h
+      subst h
+      exact ⟨sep_not_mem_take_index buf h0, sep_not_mem_take_index buf2 h20, optNonEmpty_ofLength _⟩
+
+theorem decodeExt_bodyOK (buf : Bytes) (b : Body) (h : decodeExt buf = .ok b) : BodyOK b := by
+  unfold decodeExt at h
+  rcases indexByte_neg_or buf sep with h1 | ⟨h0, h1⟩
+  · simp [h1] at h
+  · have hn : ¬ indexByte buf sep < 0 := by omega
+    simp only [hn, if_false] at h
+    rw [sliceTo_ok _ _ h0 (by omega), sliceFrom_ok _ _ (by omega) (by omega)] at h
+    simp only [DRes.ok.injEq] at h
+    subst h
+    exact sep_not_mem_take_index buf h0
+
+theorem decodeFullLoop_keys (n : Nat) (buf : Bytes) (acc ch : List (Option Bytes)) (rest : Bytes)
+    (h : decodeFullLoop n buf acc = .ok (ch, rest)) : ∀ k, some k ∈ ch → (some k ∈ acc ∨ k.length = 32) := by
+  induction n generalizing buf acc with
+  | zero =>
+    simp [decodeFullLoop] at h
+    intro k hk; left; rw [← h.1] at hk; simpa using hk
+  | succ n ih =>
+    unfold decodeFullLoop at h
+    simp only at h
+    split at h
+    · simp at h
+    · split at h
+      · split at h
+        · simp at h
+        · split at h
+          · split at h
+            · rename_i field hf key hkey
+              split at h
+              · intro k hk
+                rcases ih _ _ h k hk with hm | hl
+                · rcases List.mem_cons.mp hm with he | hm'
+                  · right
+                    simp only [Option.some.injEq] at he
+                    rw [he]
+                    exact hexDecodeInto_length 32 _ 0 [] key rfl (by omega) hkey
+                  · left; exact hm'
+                · right; exact hl
+              · simp at h
+              · simp at h
+            · simp at h
+            · simp at h
+          · simp at h
+          · simp at h
+      · split at h
+        · intro k hk
+          rcases ih _ _ h k hk with hm | hl
+          · rcases List.mem_cons.mp hm with he | hm'
+            · cases he
+            · left; exact hm'
+          · right; exact hl
+        · simp at h
+        · simp at h
+
+/-- whatever `decode` accepts satisfies `ReprOK` -/
+theorem decode_reprOK (bs : Bytes) (r : Repr) (h : decode bs = .ok r) : ReprOK r := by
+  unfold decode at h
+  cases bs with
+  | nil => simp at h
+  | cons t rest =>
+    simp only at h
+    split at h
+    · split at h
+      · rename_i b hb
+        simp only [DRes.ok.injEq] at h
+        subst h
+        refine ⟨(readTracker_lt rest).1, (readTracker_lt rest).2, ?_⟩
+        simp only
+        split at hb
+        · simp only [DRes.ok.injEq] at hb; subst hb; simp [BodyOK]
+        · split at hb
+          · exact decodeLeaf_bodyOK _ _ hb
+          · split at hb
+            · unfold decodeFull at hb
+              split at hb
+              · rename_i ch' rest' hl
+                simp only [DRes.ok.injEq] at hb
+                subst hb
+                refine ⟨by simpa using decodeFullLoop_length 16 _ [] ch' rest' hl, ?_, optNonEmpty_ofLength _⟩
+                intro k hk
+                rcases decodeFullLoop_keys 16 _ [] ch' rest' hl k hk with hm | hl'
+                · cases hm
+                · exact hl'
+              · simp at hb
+              · simp at hb
+            · exact decodeExt_bodyOK _ _ hb
+      · simp at h
+      · simp at h
+    · simp at h
+
+/-- re-encoding is idempotent on everything `decode` accepts, for ALL inputs -/
+theorem decode_encode_of_decode (bs : Bytes) (r : Repr) (h : decode bs = .ok r) : decode (encode r) = .ok r :=
+  decode_encode_ok r (decode_reprOK bs r h)
+
+
 end Verif.Codec
